@@ -43,12 +43,10 @@ def run(ctx):
     canon(ctx)
     source(ctx)
     # the fullnames hashed are the ones the parser resolves: name-key construction and namespace threading (shared with C07)
+    # ... and the parser's tables and late binding of forward references (a reference bound to another namespace's type
+    # gives the relative spelling a fingerprint that differs from the fullname spelling's)
     from . import c07
-    rn = fn_by_label(f, c07.PM + 'SchemaConstructionState::register_node')
-    if rn is not None:
-        fam = [rn] + f.closures_of(rn)
-        c07.nsarg(ctx, rn, fam)
-        c07.namekey(ctx, rn, fam)
+    c07.resolution_rules(ctx)
 
 
 def crc_step_shape(body, rv, res, R):
